@@ -49,6 +49,7 @@ def run(ctx):
     flagcount, prop_fail, tie_fail = {}, [], []
     nops = ndraws = nfallback = with_gs = 0
     distinct = set()
+    stroke_panics = []
     for c, row in zip(cases, rows):
         tie, prop, no, nd, nf, info = row[:6]
         nops += no
@@ -58,6 +59,10 @@ def run(ctx):
         distinct.add((c["fam"], json.dumps(c["desc"]["layers"])))
         for n in names(TIE, tie) + names(PROP, prop):
             flagcount[c["fam"] + " " + n] = flagcount.get(c["fam"] + " " + n, 0) + 1
+        he = str(c["desc"].get("harness_error") or "")
+        if "path has NaN or Inf" in he:
+            stroke_panics.append((c, he))
+            continue
         if prop:
             prop_fail.append((c, tie, prop))
         elif tie:
@@ -74,6 +79,10 @@ def run(ctx):
         ctx.known_finding("PS/EPS: coordinates, line widths and %%BoundingBox are written in millimetres but PostScript user space is in points "
                           "(no scale operator is emitted): the drawing is uniformly scaled by 25.4/72 in absolute size (shape, paint, order and "
                           "proportions to the bounding box are as judged); every PS output, e.g. a 100x80 mm canvas has BoundingBox 0 0 100 80")
+    if stroke_panics:
+        ctx.known_finding("Path.Stroke panics 'path has NaN or Inf' (in Settle of the stroke outline) for some polyline/cubic inputs; the outline fallback of the "
+                          "back-ends and the rasteriser hit the same panic (C04/C10 territory; %d of %d programs skipped), e.g. %s" % (
+                              len(stroke_panics), len(cases), stroke_panics[0][1][:300]))
     prop_fail.sort(key=lambda t: len(t[0]["coq"]))
     for c, tie, prop in prop_fail[:3]:
         ctx.violation(dict(kind="property-fails-on-implementation", **describe(c, tie, prop)), "%s (%s)" % (",".join(names(PROP, prop)), c["fam"]))
